@@ -16,6 +16,7 @@ mod engines {
 	pub mod json;
 	pub mod tomlorder;
 	pub mod msgpack;
+	pub mod stream;
 }
 mod props {
 	pub mod c01;
@@ -34,7 +35,9 @@ mod props {
 	pub mod c14;
 	pub mod c15;
 	pub mod c16;
+	pub mod c05;
 }
+mod alloc;
 mod corpus;
 mod gen;
 mod out;
@@ -44,6 +47,9 @@ mod xtapi;
 
 use out::Out;
 use util::Rng;
+
+#[global_allocator]
+static GLOBAL: alloc::Counting = alloc::Counting;
 
 fn main() {
 	// Deeply nested inputs are translated in-process: give the worker the
@@ -126,6 +132,10 @@ fn real_main() {
 				engines::input::run(&mut out, &mut rng.fork(), thorough);
 				props::c09::run(&mut out, &mut rng.fork(), thorough);
 			}
+			"C05" => {
+				engines::stream::run(&mut out, &mut rng.fork(), thorough);
+				props::c05::run(&mut out, &mut rng.fork(), thorough);
+			}
 			// Development entry for the JSON model slice (not a property id).
 			"JSONDEV" => {
 				engines::json::run(&mut out, &mut rng.fork(), thorough);
@@ -178,6 +188,17 @@ fn real_main() {
 		let inputs: Vec<_> = args[5].split('/').map(|h| (util::unhex(h).expect("hex"), supply.clone(), from)).collect();
 		let (results, out) = xtapi::translate_many(&inputs, to);
 		println!("results={results:?}\noutput={}\ntext={:?}", util::hex(&out), String::from_utf8_lossy(&out));
+		return;
+	}
+	if args.len() >= 6 && args[1] == "trace" {
+		// xtverif trace <from|auto> <to> <packet-bytes|0> <hex>: the read/write trace of one translation.
+		let from = xtapi::Fmt::from_name(&args[2]);
+		let to = xtapi::Fmt::from_name(&args[3]).expect("to");
+		let p: usize = args[4].parse().expect("packet size");
+		let data = std::rc::Rc::new(util::unhex(&args[5]).expect("hex"));
+		let packets = if p == 0 { engines::stream::Packets::All } else { engines::stream::Packets::Every(p) };
+		let r = engines::stream::run_real(&data, &packets, from, to);
+		println!("result={:?} written={}\ntrace={}", r.result, r.written, engines::stream::trace_field(&r.trace));
 		return;
 	}
 	if args.len() >= 2 && args[1] == "probe-transient" {
